@@ -268,6 +268,7 @@ Section Kept.
     decorate_with singular resolver c k = Ok d ->
     exists a2,
       existsb is_private (map fst (dattrs c)) = false /\
+      ctor_clash c = false /\
       resolver (map fst (attrs1 singular c k)) (attrs1 singular c k) = Ok a2 /\
       d_attrs d = a2 /\ d_annots d = annots_after k a2 /\
       let d0 := lift_body (attrs1 singular c k) (body k) in
@@ -278,6 +279,7 @@ Section Kept.
   Proof.
     unfold decorate_with. destruct (existsb is_private (map fst (dattrs c))); [discriminate|].
     destruct (resolver _ _) as [a2|e]; [|discriminate].
+    destruct (ctor_clash c); [discriminate|].
     intro H. inversion H; subst; simpl. exists a2. repeat split; auto.
   Qed.
 
@@ -290,7 +292,7 @@ Section Kept.
   Lemma decorate_with_owns resolver c k d :
     decorate_with singular resolver c k = Ok d -> owns (d_dict d).
   Proof.
-    intro H. apply decorate_with_inv in H. destruct H as (a2 & _ & _ & _ & _ & Hd). simpl in Hd.
+    intro H. apply decorate_with_inv in H. destruct H as (a2 & _ & _ & _ & _ & _ & Hd). simpl in Hd.
     rewrite Hd.
     assert (owns (register_methods
       (dset "__dataclass_fields__" EMeta (dset "__spec_class__" EMeta
@@ -363,7 +365,7 @@ Section Kept.
       Some (if mem n (d_attrs d) && is_decl m then ELifted m else EUser m).
   Proof.
     intros HK H L R Hn. apply decorate_with_inv in H.
-    destruct H as (a2 & _ & Hres & Ha & _ & Hd). simpl in Hd.
+    destruct H as (a2 & _ & _ & Hres & Ha & _ & Hd). simpl in Hd.
     unfold reserved in R. apply orb_false_iff in R. destruct R as [R1 R2].
     apply String.eqb_neq in R2.
     assert (Hl0 : lookup n (lift_body (attrs1 singular c k) (body k)) =
@@ -910,7 +912,7 @@ Section Results.
     follows (map fst (attrs1 singular c k)) [] (attrs1 singular c k) (d_attrs d) /\
     map fst (d_attrs d) = map fst (attrs1 singular c k).
   Proof.
-    intro H. apply decorate_with_inv in H. destruct H as (a2 & Hp & Hr & Ha & _). subst a2.
+    intro H. apply decorate_with_inv in H. destruct H as (a2 & Hp & _ & Hr & Ha & _). subst a2.
     split; auto. split; [now apply resolve_follows|now apply resolve_keys in Hr].
   Qed.
 
@@ -987,7 +989,7 @@ Section Results.
     end.
   Proof.
     intros H Hn. pose proof H as Hinv. apply decorate_with_inv in Hinv.
-    destruct Hinv as (a2 & _ & Hres & Ha & _ & Hd). simpl in Hd. subst a2.
+    destruct Hinv as (a2 & _ & _ & Hres & Ha & _ & Hd). simpl in Hd. subst a2.
     assert (Hk : map fst (d_attrs d) = map fst (attrs1 singular c k)) by (now apply resolve_keys in Hres).
     set (d0 := lift_body (attrs1 singular c k) (body k)) in *.
     set (d1 := if mem "__annotations__" d0 then d0 else dset "__annotations__" EMeta d0) in *.
@@ -1092,7 +1094,7 @@ Section Theorems.
     decorate singular c k = Ok d -> c_lazy c = true ->
     lookup "__new__" (d_dict d) = Some (EGen GNewHook true).
   Proof.
-    intros H Lz. apply decorate_with_inv in H. destruct H as (a2 & _ & _ & _ & _ & Hd). simpl in Hd.
+    intros H Lz. apply decorate_with_inv in H. destruct H as (a2 & _ & _ & _ & _ & _ & Hd). simpl in Hd.
     rewrite Hd, Lz. apply lookup_dset_same.
   Qed.
 
@@ -1342,3 +1344,45 @@ Section Present.
         destruct (lookup "__new__" (body k)); rewrite lookup_dset_other; auto.
   Qed.
 End Present.
+
+(* ---- a contradictory constructor makes decoration raise, and ValueError is raised only for
+   a private request or such a constructor *)
+Section Raise.
+  Variable singular : name -> option name.
+
+  Lemma ctor_clash_spec c : ctor_clash c = contradictory_constructor c.
+  Proof. reflexivity. Qed.
+
+  Theorem contradictory_constructor_raises c k :
+    contradictory_constructor c = true -> exists e, decorate singular c k = Err e.
+  Proof.
+    rewrite <- ctor_clash_spec. intro H. unfold decorate, decorate_with.
+    destruct (existsb is_private (map fst (dattrs c))); [eauto|].
+    destruct (resolve _ _ _); [rewrite H|]; eauto.
+  Qed.
+
+  Lemma resolve_err names taken todo e : resolve names taken todo = Err e -> e = RuntimeErr.
+  Proof.
+    revert taken. induction todo as [|[a s] t IH]; simpl; intros taken; [discriminate|].
+    destruct (is_coll s).
+    - destruct (memb (a_item s) names || memb (a_item s) taken).
+      + destruct (negb (memb (item_fallback a) names) && negb (memb (item_fallback a) taken)).
+        * destruct (resolve names (item_fallback a :: taken) t) eqn:E; [discriminate|].
+          intro H; inversion H; subst; eauto.
+        * intro H; inversion H; auto.
+      + destruct (resolve names (a_item s :: taken) t) eqn:E; [discriminate|].
+        intro H; inversion H; subst; eauto.
+    - destruct (resolve names taken t) eqn:E; [discriminate|]. intro H; inversion H; subst; eauto.
+  Qed.
+
+  Theorem value_error_only_when_justified c k :
+    decorate singular c k = Err ValueErr ->
+    existsb is_private (map fst (dattrs c)) = true \/ contradictory_constructor c = true.
+  Proof.
+    rewrite <- ctor_clash_spec. unfold decorate, decorate_with.
+    destruct (existsb is_private (map fst (dattrs c))); [auto|].
+    destruct (resolve _ _ _) eqn:E.
+    - destruct (ctor_clash c); [auto|discriminate].
+    - intro H. inversion H; subst. apply resolve_err in E. discriminate.
+  Qed.
+End Raise.
